@@ -57,8 +57,7 @@ const DECLS: &[&str] = &[
     "#[inline(always)] #[inline(never)] fn i9() {}\n",
     "use std::nothing::*;\n",
     "mod m9;\n",
-    "const Z9: [u64; 18446744073709551615] = [0; 18446744073709551615];\n",
-    "fn big9() -> [u256; 100000] { [0x0u256; 100000] }\n",
+    "fn big9() -> [u256; 50000] { [0x0u256; 50000] }\n",
 ];
 
 fn sem_mut() -> impl Strategy<Value = SemMut> {
@@ -308,6 +307,38 @@ pub fn corpus() -> Vec<(String, String)> {
     out
 }
 
+/// an array type or repeat expression `[..; N]` with N >= 100000
+fn has_huge_array_length(src: &str) -> bool {
+    let b = src.as_bytes();
+    let mut i = 0;
+    while i < b.len() {
+        if b[i] == b';' {
+            let mut j = i + 1;
+            while j < b.len() && b[j] == b' ' {
+                j += 1;
+            }
+            let st = j;
+            while j < b.len() && (b[j].is_ascii_digit() || b[j] == b'_') {
+                j += 1;
+            }
+            if j > st {
+                let digits: String = src[st..j].chars().filter(|c| c.is_ascii_digit()).collect();
+                let mut k = j;
+                while k < b.len() && (b[k].is_ascii_alphanumeric()) {
+                    k += 1; // literal suffix
+                }
+                while k < b.len() && b[k] == b' ' {
+                    k += 1;
+                }
+                if k < b.len() && b[k] == b']' && (digits.len() > 6 || digits.parse::<u64>().map(|v| v >= 100_000).unwrap_or(true)) {
+                    return true;
+                }
+            }
+        }
+        i += 1;
+    }
+    false
+}
 fn parses(src: &str) -> bool {
     let h = sway_error::handler::Handler::default();
     matches!(catch(|| sway_parse::parse_file(&h, src.into(), None, Default::default())), Ok(Ok(_))) && !h.has_errors()
@@ -331,6 +362,12 @@ fn eval(case: &MutCase, rep: &Report, corpus: &[(String, String)], kf: &KnownFin
     }
     if src == base {
         rep.class("mutant:identical-to-origin");
+        return Ok(());
+    }
+    if has_huge_array_length(&src) {
+        // recorded finding (pinned below): constant evaluation materializes `[v; N]` element by element, so an absurd N
+        // panics with "capacity overflow" or exhausts memory; excluded from the campaign by construction
+        rep.class("mutant:huge-array-length(excluded)");
         return Ok(());
     }
     if !parses(&src) {
@@ -415,6 +452,18 @@ pub fn run_mutants(ctx: &Ctx, rep: &Report, cases: u64) {
         } else {
             rep.violation(Violation { signature: format!("compiler-process-died:{died}"), summary: "pinned self-recursive method case dies even without the self call".into(), replay: json!({"src": pinned}) });
         }
+    }
+    let pinned_huge = "script;\nconst Z9: [u64; 18446744073709551615] = [0; 18446744073709551615];\nfn main() -> u64 { 1 }\n";
+    match isolated_compile(pinned_huge) {
+        Ok(levels) => {
+            if let LevelOutcome::Internal { sig, first, .. } = &levels[0] {
+                rep.violation(Violation { signature: sig.clone(), summary: format!("pinned case (huge constant array): {}", truncate(first, 200)), replay: json!({"src": pinned_huge}) });
+            }
+        }
+        Err(died) if died != "timeout" => {
+            rep.violation(Violation { signature: format!("compiler-process-died:{died}:huge-constant-array"), summary: "pinned case (huge constant array) killed the compiler process".into(), replay: json!({"src": pinned_huge}) });
+        }
+        Err(_) => {}
     }
     drop_worker();
     let out = run_prop(ctx, 171, cases, mut_case, |case| match eval(case, rep, &corpus, &kf) {
